@@ -126,6 +126,52 @@ def leaf_universe(rng, tier):
     return out
 
 
+def random_leaf_universe(rng, n):
+    """Seeded random leaf specs: rank 0-3 shapes (dims 0-3), all dtypes, scalar / per-element / partially broadcast bounds."""
+    from jumanji import specs as S
+    import jax.numpy as jnp
+
+    out = []
+    for _ in range(n):
+        rank = int(rng.integers(0, 4))
+        sh = tuple(int(rng.integers(0, 4)) for _ in range(rank))
+        dt = DTYPES[int(rng.integers(0, len(DTYPES)))]
+        kind = int(rng.integers(0, 5))
+        name = ["", "x", "obs"][int(rng.integers(0, 3))]
+        try:
+            if kind == 0 or dt == "bool" and kind in (3, 4):
+                out.append(S.Array(sh, dt, name=name))
+            elif kind in (1, 2):
+                isf = dt.startswith("float")
+                if dt == "bool":
+                    out.append(S.BoundedArray(sh, dt, False, True, name=name))
+                    continue
+                lo_lim, hi_lim = (0, 200) if dt == "uint8" else (-100, 100)
+                if kind == 1 or 0 in sh or not sh:
+                    a, b = sorted(rng.integers(lo_lim, hi_lim, size=2).tolist())
+                    mn, mx = (a / 4.0, b / 4.0) if isf else (a, b)
+                else:
+                    # bounds of the trailing-axis shape (broadcast along the leading axes) or of the full shape
+                    bsh = sh if rng.random() < 0.5 else sh[-1:]
+                    a = rng.integers(lo_lim, hi_lim, size=bsh)
+                    b = a + rng.integers(0, 20, size=bsh)
+                    if not isf:
+                        b = np.minimum(b, np.iinfo(dt).max)
+                    mn, mx = (a / 4.0, b / 4.0) if isf else (a, b)
+                    mn, mx = np.asarray(mn, dt), np.asarray(mx, dt)
+                out.append(S.BoundedArray(sh, dt, mn, mx, name=name))
+            elif kind == 3:
+                idt = ["int8", "int16", "int32", "uint8"][int(rng.integers(0, 4))]
+                out.append(S.DiscreteArray(int(rng.integers(1, 100)), idt, name=name))
+            else:
+                idt = ["int8", "int16", "int32"][int(rng.integers(0, 3))]
+                nsh = tuple(int(rng.integers(1, 4)) for _ in range(int(rng.integers(1, 3))))
+                out.append(S.MultiDiscreteArray(jnp.asarray(rng.integers(1, 100, size=nsh)), idt, name=name))
+        except Exception:  # noqa: BLE001  (a randomly drawn combination the constructor refuses is simply skipped)
+            continue
+    return out
+
+
 NT2 = collections.namedtuple("NT2", ["u", "v"])
 NT3 = collections.namedtuple("NT3", ["p", "q", "r"])
 
@@ -135,7 +181,7 @@ def nested_universe(leaves, rng):
 
     out = []
     pick = lambda: leaves[int(rng.integers(0, len(leaves)))]  # noqa: E731
-    for _ in range(6):
+    for _ in range(6 if len(leaves) < 600 else 60):
         a, b, c = pick(), pick(), pick()
         out.append(S.Spec(NT2, "NT2Spec", u=a, v=b))
         inner = S.Spec(NT2, "Inner", u=b, v=c)
@@ -439,7 +485,7 @@ def drive(part, tier, seed):
     rng = np.random.default_rng(seed + 5)
     evs = []
     if part == "universe":
-        leaves = leaf_universe(rng, tier)
+        leaves = leaf_universe(rng, tier) + random_leaf_universe(rng, 60 if tier == "quick" else 1500)
         nested = nested_universe(leaves, rng)
         for i, s in enumerate(leaves + nested):
             events_for_spec(s, f"u{i}", rng, evs)
